@@ -25,7 +25,8 @@ def handle (j : Json) : Except String Json := do
     let builtins ← J.scope (← jobj j "builtins")
     let ns ← (← jarr j "ns").toList.mapM J.scope
     let reg ← J.registry (← jobj j "registry")
-    let st := analyze reg builtins ns prog
+    let fx := J.fixes ((j.getObjVal? "fixes").toOption.getD Json.null)
+    let st := analyzeFx fx reg builtins ns prog
     pure (Json.mkObj [("missing", strsJ (sortedSet (st.missing.map (·.name))))])
   | "exec" =>
     let body ← J.stmts (← jobj j "body")
